@@ -155,6 +155,8 @@ func enumerate(name string, thorough bool) []*instance {
 		return enumHBLoss(name, parts)
 	case "flow":
 		return enumFlow(name, parts)
+	case "flowmulti":
+		return enumFlowMulti(name, parts)
 	case "route":
 		return enumRoute(name, parts)
 	}
